@@ -323,7 +323,16 @@ def raw_oracle(ctx, res, gid_filter, what):
         if c[2] != "parse_partial" or not gid_filter(c[0], c[1]):
             continue
         ref = refs.setdefault(c[0], Ref(gs[c[0]]))
-        exp = ref.run_rule(c[1], c[6])
+        # a Span / Position sub-input is judged as a fresh copy of the slice, offsets shifted by a (C08)
+        shift = 0
+        text = c[6]
+        if c[3] in ("span", "pos"):
+            bts = c[6].encode("utf-8")
+            shift = c[4]
+            text = bts[c[4]:(c[5] if c[3] == "span" else len(bts))].decode("utf-8")
+        exp = ref.run_rule(c[1], text)
+        if exp is not None and shift:
+            exp = (exp[0] + shift, exp[1])
         got_v = io.get("v")
         ctx.count(c, got_v == "ok" and (io.get("end") != "0" or io.get("stk") != "[]"))
         ctx.sample(c, io)
@@ -616,6 +625,25 @@ def check_C10_report(ctx, c, io, pos, hist):
     if text.split("\n", 1)[0] != upto + "^---":
         ctx.violation("first line of the message is not the line text up to the column followed by ^---", c, position=pos,
                       first_line=text.split("\n", 1)[0], expected=upto + "^---")
+    # the rendered lists must say what the tracker recorded: per upper rule, "Expected [..]" = the recorded
+    # positives, "Unexpected [..]" = the recorded negatives (sorted, deduplicated), in BTreeMap key order
+    want = []
+    for part in io.get("trk", "|").split("|", 1)[1].split(";"):
+        if not part:
+            continue
+        upper, rest = part.split(":", 1)
+        positives, negatives, _sp = rest.split("/")
+        want.append((upper, sorted(set(filter(None, positives.split(",")))), sorted(set(filter(None, negatives.split(","))))))
+    got = []
+    for ln in text.split("\n")[1:]:
+        t = ln.strip()
+        m = re.match(r"^(?:Unexpected \[(?P<u>[^\]]*)\])?(?:, expected \[(?P<e2>[^\]]*)\])?(?:Expected \[(?P<e>[^\]]*)\])?(?P<unk>Unknown error \(no rule tracked\))?(?:, by (?P<by>[A-Za-z0-9_#]+))?\.$", t)
+        if m and (m.group("u") is not None or m.group("e") is not None or m.group("e2") is not None or m.group("unk")):
+            lst = lambda x: sorted(y.strip() for y in x.split(",") if y.strip()) if x else []
+            got.append((m.group("by") or "-", lst(m.group("e") or m.group("e2")), lst(m.group("u"))))
+    if got != want:
+        ctx.violation("rendered expected / unexpected lists differ from what the tracker recorded", c, position=pos,
+                      message=text[:400], recorded=want, rendered=got)
     if line > 1:
         hist["rendered_after_line_1"] += 1
     if any(ord(ch) > 127 for ch in upto):
